@@ -18,7 +18,7 @@ var Lexemes = map[string][]string{
 	"T_INCLUDE": {"include", "INCLUDE", "Include"}, "T_INCLUDE_ONCE": {"include_once", "INCLUDE_ONCE"}, "T_EXIT": {"exit", "die", "EXIT", "Die"},
 	"T_IF": {"if", "IF", "If"}, "T_LNUMBER": {"1", "0", "017", "0x1F", "0b11", "9223372036854775807", "0xfF"},
 	"T_DNUMBER": {"1.5", ".5", "1.", "1e3", "1E-3", "9223372036854775808", "1.5e+3", "0x8000000000000000"},
-	"T_STRING": {"a", "Abc", "_x9", "a\x80\xff", "\xd7\xa9\xd7\x9c", "\x80", "\xbfz\xf7"}, "T_STRING_VARNAME": {"a"}, "T_VARIABLE": {"$a", "$_b9", "$A\x80", "$\xd7\xa9", "$\x80"}, "T_NUM_STRING": {"0", "12", "0x1A", "010"},
+	"T_STRING": {"a", "Abc", "_x9", "a\x80\xff", "\xd7\xa9\xd7\x9c", "\x80", "\xbfz\xf7"}, "T_STRING_VARNAME": {"a"}, "T_VARIABLE": {"$a", "$_b9", "$A\x80", "$\xd7\xa9", "$\x80"}, "T_NUM_STRING": {"0", "12", "0x1A", "010", "08", "0777777777777777777777", "99999999999999999999", "0b1"},
 	"T_INLINE_HTML": {"?>x<?php "}, "T_ENCAPSED_AND_WHITESPACE": {"x ", "x\\n\\\"y", " \\$ \\{ "},
 	"T_CONSTANT_ENCAPSED_STRING": {"'s'", "''", "\"s\"", "\"\"", "\"a\\\nb\"", "\"a\\\rb\"", "'a\\\nb'", "\"a\\\r\nb\\\\\n\"", "b\"x\\\ny\"", "'a\\'b'", "\"a\\\"b\"", "'$a {$b}'", "\"\\$a\"", "'x\ny'", "\"x\r\ny\"", "'x\ry'", "\"a\\\\\""},
 	"T_ECHO": {"echo", "ECHO", "Echo"}, "T_DO": {"do", "DO"}, "T_WHILE": {"while", "WHILE", "While"}, "T_ENDWHILE": {"endwhile", "ENDWHILE"},
